@@ -274,7 +274,7 @@ def _insertion_group(order, cu, cv, delta):
                   'growth and all contents preserved', replay=_replay_nlist, timeout_ms=20000)
     def h_(E, L):
         block, info = _extract(L, NLF, 'nlist', _is_insert_if)
-        E.prove('insertion.block_found[%s,%d,%d,%d]' % (order, cu, cv, delta), info['last_line'] > info['first_line'] and 'neighbors' in info['free_variables'])
+        E.shape('insertion.block_found[%s,%d,%d,%d]' % (order, cu, cv, delta), info['last_line'] > info['first_line'] and 'neighbors' in info['free_variables'])
         first = True
         natoms, cap = 3, 2
         for _once in (0,):
@@ -358,7 +358,7 @@ class _BinRecorder(object):
 def stencil_block(E, L):
     # the statements between "copy the bin's own atoms" and "longlist = superlonglist[:c]", whatever their arrangement
     block, info = _extract_between(L, NLF, 'nlist', _is_own_atoms_fill, _is_longlist_assign)
-    E.prove('stencil.block_found', info['last_line'] > info['first_line'])
+    E.shape('stencil.block_found', info['last_line'] > info['first_line'])
     x_ = E.int('canary_x')
     E.canary('stencil.canary', x_ == x_ + 1)
     half = [(dx, dy, dz) for dz in (-1, 0, 1) for dy in (-1, 0, 1) for dx in (-1, 0, 1) if (dz, dy, dx) < (0, 0, 0)]
@@ -394,7 +394,7 @@ def stencil_block(E, L):
               'and a pair is recorded only if that squared separation is below cutoff^2 and the ids differ', replay=_replay_nlist, timeout_ms=20000)
 def pair_block(E, L):
     block, info = _extract(L, NLF, 'nlist', _is_pair_for)
-    E.prove('pairs.block_found', info['last_line'] > info['first_line'])
+    E.shape('pairs.block_found', info['last_line'] > info['first_line'])
     mod = L.load(NLF)
     natoms = 5
     posv = E.reals('pos', (natoms, 3))
@@ -423,7 +423,7 @@ def pair_block(E, L):
                              neighbors=tab, maxneighbors=4, deltasize=2, natoms=natoms))
         finally:
             mod.dmag2_c = real
-        E.prove(tagp + '.one_request_per_own_atom', len(calls) == len(shortlist))
+        E.shape(tagp + '.one_request_per_own_atom', len(calls) == len(shortlist))
         nt = out['neighbors']
         for u, (upos, vpos) in enumerate(calls):
             want_v = longlist[u + 1:]
@@ -468,7 +468,7 @@ def _is_binfill_for(n):
               'and each re-allocation raises the capacity by 10 keeping every count and id of every bin', replay=_replay_nlist, timeout_ms=20000)
 def bin_filling(E, L):
     block, info = _extract(L, NLF, 'nlist', _is_binfill_for)
-    E.prove('binfill.block_found', info['last_line'] > info['first_line'])
+    E.shape('binfill.block_found', info['last_line'] > info['first_line'])
     mod = L.load(NLF)
     first = True
     for assign in ([0, 1, 0, 0, 1, 0], [0] * 14, [1, 0, 1, 1], [0, 0, 1]):
